@@ -25,7 +25,11 @@ if TYPE_CHECKING:
 
 
 def _choose_matrix_product_class(matrix_l: Matrix, matrix_r: Matrix) -> MatrixProduct:
-    if matrix_l.shape[0] == matrix_l.shape[1] and matrix_r.shape == matrix_l.shape:
+    if (
+        isinstance(matrix_l, SquareMatrix)
+        and isinstance(matrix_r, SquareMatrix)
+        and matrix_r.shape == matrix_l.shape
+    ):
         if isinstance(matrix_l, InvertibleMatrix) and isinstance(
             matrix_r,
             InvertibleMatrix,
